@@ -53,10 +53,30 @@ func judge(src string, recs []tgen.Record, fileName string, f *tgen.File, st ste
 	if strings.HasPrefix(r.Err, "panic:") {
 		return fmt.Errorf("render panicked: %s", r.Err)
 	}
-	if !bytes.HasPrefix(d0, r.Out) && !(st.kind == "comp" && compReached) {
+	if !bytes.HasPrefix(d0, r.Out) && !(st.kind == "comp" && compReached) && !st.job.ToGoHTML {
 		return fmt.Errorf("%s: the writer received %q, not a prefix of the document %q", st.kind, clip(r.Out), clip(d0))
 	}
+	if st.job.ToGoHTML && r.Err != "" {
+		// ToGoHTML returns no HTML with an error; the error must be the injected one
+		if st.kind == "comp-togohtml" && !r.CompErr {
+			return fmt.Errorf("ToGoHTML: nested component failed but err=%q does not wrap its error", r.Err)
+		}
+		if len(r.Out) != 0 {
+			return fmt.Errorf("ToGoHTML returned an error and %d bytes of HTML", len(r.Out))
+		}
+		if st.kind == "expr" && !r.Boom {
+			return fmt.Errorf("ToGoHTML: error %q does not wrap the expression's error", r.Err)
+		}
+		return nil
+	}
 	switch st.kind {
+	case "comp-togohtml":
+		if compReached {
+			return fmt.Errorf("ToGoHTML: nested component failed but no error was returned")
+		}
+		if !bytes.Equal(r.Out, d0) {
+			return fmt.Errorf("ToGoHTML returned %q, the document is %q", clip(r.Out), clip(d0))
+		}
 	case "plain":
 		if r.Err != "" {
 			return fmt.Errorf("fault-free render failed: %s", r.Err)
@@ -191,6 +211,20 @@ func genSteps(t *rapid.T, a tgen.Args, docLen int, exhaustive bool) []step {
 	bufio(2, false)
 	bufio(1, false)
 	plain()
+	// templ.ToGoHTML renders into the root package's pooled buffer: a failed one, then good ones
+	{
+		fa := a
+		fa.Fail = true
+		jf := tbatch.Plain(0, fa)
+		jf.ToGoHTML = true
+		out = append(out, step{job: jf, kind: "expr"})
+		jc := tbatch.Plain(0, a)
+		jc.ToGoHTML, jc.CompFailAfter = true, 5
+		out = append(out, step{job: jc, kind: "comp-togohtml"})
+		jp := tbatch.Plain(0, a)
+		jp.ToGoHTML = true
+		out = append(out, step{job: jp, kind: "plain"}, step{job: jp, kind: "plain"})
+	}
 	// other faults, interleaved with fault-free renders
 	j := tbatch.Plain(0, a)
 	j.Cancelled = true
